@@ -244,6 +244,46 @@ def obligations_for(prop):
 
 
 
+# ---- key lists of the set-up checks (geometry/utils.py, utils/check_surface_dict.py) ----------------
+def _str_list(node):
+    if not isinstance(node, (ast.List, ast.Tuple)) or not all(isinstance(e, ast.Constant) and isinstance(e.value, str) for e in node.elts):
+        raise Refuse("expected a list of string literals")
+    return [e.value for e in node.elts]
+
+
+def gen_setup_keys():
+    t, src = tree("openaerostruct/geometry/utils.py")
+    f = find_func(t, "get_default_geo_dict")
+    dflt = None
+    for n in ast.walk(f):
+        if isinstance(n, ast.Assign) and isinstance(n.value, ast.Dict) and len(n.targets) == 1 and isinstance(n.targets[0], ast.Name) and n.targets[0].id == "defaults":
+            if not all(isinstance(k, ast.Constant) and isinstance(k.value, str) for k in n.value.keys):
+                raise Refuse("default geo dict keys are not string literals")
+            dflt = [k.value for k in n.value.keys]
+    if dflt is None:
+        raise Refuse("defaults dict not found in get_default_geo_dict")
+    g = find_func(t, "generate_mesh")
+    important = None
+    for n in ast.walk(g):
+        if isinstance(n, ast.For) and isinstance(n.iter, ast.List) and isinstance(n.target, ast.Name) and n.target.id == "key":
+            important = _str_list(n.iter)
+    if important is None:
+        raise Refuse("list of important keys not found in generate_mesh")
+    t2, src2 = tree("openaerostruct/utils/check_surface_dict.py")
+    c = find_func(t2, "check_surface_dict_keys")
+    impl = None
+    for n in ast.walk(c):
+        if isinstance(n, ast.Assign) and len(n.targets) == 1 and isinstance(n.targets[0], ast.Name) and n.targets[0].id == "keys_implemented":
+            impl = _str_list(n.value)
+    if impl is None:
+        raise Refuse("keys_implemented not found")
+
+    def lst(xs):
+        return "[" + "; ".join('"%s"' % x for x in xs) + "]"
+    return ("(* GENERATED by harness/translate.py - do not edit *)\nFrom Coq Require Import String List.\nImport ListNotations.\nOpen Scope string_scope.\n"
+            "Definition gen_mesh_dict_keys : list string := %s.\nDefinition gen_mesh_dict_important : list string := %s.\nDefinition gen_surface_keys_implemented : list string := %s.\n" % (lst(dflt), lst(important), lst(impl)))
+
+
 # ---- atmosphere tables (common/atmos_comp.py) --------------------------------------------------
 def _attr_array_assign(relpath, obj, attr):
     t, src = tree(relpath)
@@ -303,6 +343,7 @@ def gen_atmos_table():
 
 
 EXTRA.append(("AtmosTable.v", ["C17"], gen_atmos_table))
+EXTRA.append(("SetupKeys.v", ["C20"], gen_setup_keys))
 
 
 # ---- beam element tables (structures/local_stiff.py, local_stiff_permuted.py) -----------------
